@@ -10,7 +10,7 @@ from ..worldprop import base_outcome, completion, REAL_VS_STUB  # noqa
 
 np = sut.np
 ID = "C08"
-RUNS = {"quick": 3500, "thorough": 100000}
+RUNS = {"quick": 7000, "thorough": 100000}
 BUDGET = {"quick": 50, "thorough": 800}
 RULE = ("worlds as C07 but estimator and uninterrupted charging off, unequal voltages and max pilots, several mixed-sign "
         "constraints; every completed call is replayed by a reference (closed-form 1-D maximum for greedy, deque replay for "
